@@ -1,14 +1,16 @@
 (* Rt/ExtFormat.v — format facts about the building blocks of the extensibility
    layer (Rt/Ext.v), stated against the text of the standards:
      (A) X.696 16.4: the OER presence bitmap of the extension additions is a BIT STRING
-         (length octet, unused-bits octet, the bits padded with zeros);
+         (length octet, unused-bits octet, the bits padded with zeros); X.696 16.2-16.3: the
+         preamble starts with the extension bit, however many octets it has;
      (B) X.691 11.9.3.4 / 11.6: normally small length and normally small non-negative
-         whole number: the reference decoder reads back what the X.691 reading writes,
-         the C's writer agrees with it on the small range and is refuted above it;
+         whole number: the bits written, clause by clause, and the C's readers read
+         them back (since the repair of uper_put_nslength / uper_put_nsnnwn: also above
+         64 / 63, where the leading 1 bit used to be missing);
      (C) X.691 11.2 / 11.9.3.5-8: the open type is the contents cut into fragments of
          m * 16K octets (1 <= m <= 4) followed by one fragment below 16K (possibly
          empty), each behind its length octet(s); it is a whole number of octets.
-   Every theorem is unbounded; only the two [_refuted] witnesses are computed. *)
+   Every theorem is unbounded. *)
 From Coq Require Import ZArith List Lia Bool ZifyBool.
 From A1 Require Import Base.Bytes Rt.Types Rt.Comb Rt.Der Rt.Uper Rt.UperBits Rt.UperCounted
   Rt.Oer Rt.Ext.
@@ -49,20 +51,62 @@ Proof.
   rewrite H1. unfold zlen. rewrite unused_bits_pad_len, Nat2Z.id. reflexivity.
 Qed.
 
+(* X.696 16.2-16.3: the preamble of an extensible SEQUENCE is the extension bit FOLLOWED by one presence bit per
+   OPTIONAL/DEFAULT root component, padded with zero bits to a whole number of octets: whatever the number of such
+   components (1, 2, 3, ... octets), the extension bit is the first bit of the first octet of the encoding *)
+Theorem ext_oer_preamble_format tg root adds rvs avs bs :
+  ext_oer (ESeq tg root adds) (EVSeq rvs avs) = Some bs ->
+  exists tail,
+    bytes_bits bs = (existsb is_present avs :: presence_bits root rvs)
+                    ++ repeat false (pad_len (S (length (presence_bits root rvs)))) ++ bytes_bits tail.
+Proof.
+  cbn [ext_oer].
+  destruct (enc_members oer root rvs) as [body|]; [|discriminate].
+  destruct (enc_additions oer oer_open adds avs) as [ots|]; [|discriminate].
+  cbv zeta.
+  assert (Hpre : forall any tail,
+    bytes_bits (bits_to_bytes (any :: presence_bits root rvs) ++ tail) =
+    (any :: presence_bits root rvs) ++ repeat false (pad_len (S (length (presence_bits root rvs)))) ++ bytes_bits tail).
+  { intros any tail. unfold bytes_bits. rewrite flat_map_app. fold (bytes_bits (bits_to_bytes (any :: presence_bits root rvs))).
+    destruct (bits_to_bytes_spec (any :: presence_bits root rvs)) as [Hb _]. rewrite Hb.
+    cbn [length]. rewrite <- app_assoc. reflexivity. }
+  destruct (existsb is_present avs) eqn:Eany.
+  - destruct (oer_ext_bitmap (map is_present avs)) as [bm|]; [|discriminate].
+    intros H. apply some_inj in H. subst bs. exists (body ++ bm ++ ots). apply Hpre.
+  - intros H. apply some_inj in H. subst bs. exists body. apply Hpre.
+Qed.
+
 (* ================= (B) normally small length / number ================= *)
 
-Lemma nslength_rt std n b r : (std = true \/ n <= 64) ->
-  nslength std n = Some b -> get_nslength (b ++ r) = Some (n, r).
+(* X.691 11.9.3.4: up to 64 a single bit 0 and n - 1 in six bits; above, a single bit 1 and the
+   general length determinant of 11.9.3.6 / 11.9.3.7 (the one that precedes a fragment: [frag_header]) *)
+Theorem nslength_format n b : nslength n = Some b ->
+  (1 <= n <= 64 /\ b = false :: nbits 6 (n - 1)) \/
+  (64 < n < 16384 /\ b = true :: frag_header n).
 Proof.
-  intros Hs. unfold nslength.
+  unfold nslength, frag_header.
+  destruct (n <=? 0) eqn:E0; [discriminate|].
+  destruct (n <=? 64) eqn:E1.
+  - intros H. apply some_inj in H. subst b. left. split; [lia|].
+    rewrite (nbits_S 6). change (2 ^ Z.of_nat 6) with 64.
+    replace ((n - 1) / 64) with 0 by lia. reflexivity.
+  - destruct (n <=? 127) eqn:E2.
+    + intros H. apply some_inj in H. subst b. right. split; [lia|reflexivity].
+    + destruct (n <? 16384) eqn:E3; [|discriminate].
+      intros H. apply some_inj in H. subst b. right. split; [lia|reflexivity].
+Qed.
+
+(* uper_get_nslength reads back what uper_put_nslength wrote, for every count it writes *)
+Lemma nslength_rt n b r : nslength n = Some b -> get_nslength (b ++ r) = Some (n, r).
+Proof.
+  unfold nslength.
   destruct (n <=? 0) eqn:E0; [discriminate|].
   destruct (n <=? 64) eqn:E1.
   - intros H. apply some_inj in H. subst b. rewrite (nbits_S 6). change (2 ^ Z.of_nat 6) with 64.
     replace ((n - 1) / 64) with 0 by lia. cbn [Z.odd app get_nslength].
     rewrite get_bits_nbits by (change (2 ^ Z.of_nat 6) with 64; lia).
     replace (n - 1 + 1) with n by lia. reflexivity.
-  - destruct Hs as [->|Hs]; [|lia].
-    destruct (n <=? 127) eqn:E2.
+  - destruct (n <=? 127) eqn:E2.
     + intros H. apply some_inj in H. subst b. cbn [app get_nslength].
       rewrite get_length_short by lia. reflexivity.
     + destruct (n <? 16384) eqn:E3; [|discriminate].
@@ -70,29 +114,46 @@ Proof.
       rewrite get_length_long by lia. reflexivity.
 Qed.
 
-Lemma nslength_small_agree n : n <= 64 -> nslength false n = nslength true n.
+(* X.691 11.6: up to 63 a single bit 0 and n in six bits; above, a single bit 1, the number k of
+   octets n needs (as an 8-bit length determinant, 11.9.3.6) and n in k octets *)
+Theorem nsnnwn_format n b : nsnnwn n = Some b ->
+  (0 <= n <= 63 /\ b = false :: nbits 6 n) \/
+  (exists k, 63 < n /\ 1 <= k <= 3 /\ 256 ^ (k - 1) <= n < 256 ^ k /\
+             b = true :: nbits 8 k ++ nbits (Z.to_nat (8 * k)) n).
 Proof.
-  intros H. unfold nslength. destruct (n <=? 0); [reflexivity|].
-  destruct (n <=? 64) eqn:E; [reflexivity|lia].
+  unfold nsnnwn.
+  destruct (n <? 0) eqn:E0; [discriminate|].
+  destruct (n <=? 63) eqn:E1.
+  - intros H. apply some_inj in H. subst b. left. split; [lia|].
+    rewrite (nbits_S 6). change (2 ^ Z.of_nat 6) with 64.
+    replace (n / 64) with 0 by lia. reflexivity.
+  - cbv zeta. intros H. right.
+    destruct (n <? 256) eqn:E2.
+    + change (1 =? 0) with false in H. cbv iota in H. apply some_inj in H. subst b.
+      exists 1. change (256 ^ (1 - 1)) with 1. change (256 ^ 1) with 256.
+      repeat split; try lia.
+    + destruct (n <? 65536) eqn:E3.
+      * change (2 =? 0) with false in H. cbv iota in H. apply some_inj in H. subst b.
+        exists 2. change (256 ^ (2 - 1)) with 256. change (256 ^ 2) with 65536.
+        repeat split; try lia.
+      * destruct (n <? 16777216) eqn:E4.
+        -- change (3 =? 0) with false in H. cbv iota in H. apply some_inj in H. subst b.
+           exists 3. change (256 ^ (3 - 1)) with 65536. change (256 ^ 3) with 16777216.
+           repeat split; try lia.
+        -- change (0 =? 0) with true in H. discriminate H.
 Qed.
 
-Theorem nslength_c_refuted :
-  exists n b, nslength false n = Some b /\ get_nslength b <> Some (n, []).
+(* uper_get_nsnnwn reads back what uper_put_nsnnwn wrote, up to two octets (it refuses three) *)
+Lemma nsnnwn_rt n b r : n < 65536 ->
+  nsnnwn n = Some b -> get_nsnnwn (b ++ r) = Some (n, r).
 Proof.
-  exists 65, (nbits 8 65). split; [vm_compute; reflexivity|].
-  intros H. vm_compute in H. discriminate H.
-Qed.
-
-Lemma nsnnwn_rt std n b r : (std = true \/ n <= 63) -> n < 65536 ->
-  nsnnwn std n = Some b -> get_nsnnwn (b ++ r) = Some (n, r).
-Proof.
-  intros Hs Hn. unfold nsnnwn.
+  intros Hn. unfold nsnnwn.
   destruct (n <? 0) eqn:E0; [discriminate|].
   destruct (n <=? 63) eqn:E1.
   - intros H. apply some_inj in H. subst b. rewrite (nbits_S 6). change (2 ^ Z.of_nat 6) with 64.
     replace (n / 64) with 0 by lia. cbn [Z.odd app get_nsnnwn].
     apply get_bits_nbits. change (2 ^ Z.of_nat 6) with 64. lia.
-  - destruct Hs as [->|Hs]; [|lia]. cbv zeta.
+  - cbv zeta.
     destruct (n <? 256) eqn:E2.
     + change (1 =? 0) with false. cbv iota.
       intros H. apply some_inj in H. subst b.
@@ -109,19 +170,6 @@ Proof.
       change (2 =? 0) with false. change (2 <? 3) with true. cbv iota.
       change (Z.to_nat (8 * 2)) with 16%nat.
       apply get_bits_nbits. change (2 ^ Z.of_nat 16) with 65536. lia.
-Qed.
-
-Lemma nsnnwn_small_agree n : n <= 63 -> nsnnwn false n = nsnnwn true n.
-Proof.
-  intros H. unfold nsnnwn. destruct (n <? 0); [reflexivity|].
-  destruct (n <=? 63) eqn:E; [reflexivity|lia].
-Qed.
-
-Theorem nsnnwn_c_refuted :
-  exists n b, nsnnwn false n = Some b /\ get_nsnnwn b <> Some (n, []).
-Proof.
-  exists 64, (nbits 8 1 ++ nbits 8 64). split; [vm_compute; reflexivity|].
-  intros H. vm_compute in H. discriminate H.
 Qed.
 
 (* ================= (C) open type / fragmentation ================= *)
